@@ -14,7 +14,10 @@ EXPLANATION = (
     "into it, never the argument; Upgraded is reported only on merge's true edge; key = capability id; the namespaces table"
     " has no other writer besides remove_replica and migration 002; (R4) the actor's import handler evaluated on outcome x "
     "{open, closed}: the imported capability is merged into the open replica's state exactly on Upgraded; (R5) "
-    'Capability::secret_key is Ok iff Write and local insert/delete obtain the signing key from it before any store call. '
+    'Capability::secret_key is Ok iff Write and local insert/delete obtain the signing key from it before any store call; '
+    "(R6) the RPC handler behind Docs::import evaluated on {import, open, other handle calls} x {ok, fails}: success is reported only "
+    "after SyncHandle::import_namespace succeeded with the request's capability. "
+
     'NOT decided: redb persistence itself.'
 )
 ASSUMPTIONS = ["std::mem::replace(self, other) stores other into self", "redb tables are identified by their key/value types"]
@@ -339,9 +342,82 @@ def r5(ctx):
     ctx.floor("C07.R5", 8)
 
 
+DOC_IMPORT = "api::actor::RpcActor::doc_import"
+
+
+def eval_doc_import(f, import_ok, open_ok, others_ok):
+    """the RPC handler behind Docs::import / import_namespace evaluated (K6', awaits driven to completion): every call on the
+    SyncHandle is a future the oracle completes. Returns (result, log of completed handle calls)."""
+    from . import feval as E
+    log = []
+
+    def oracle(kind, name, payload, site):
+        if kind == "call":
+            t, args, it = payload
+            if (t["f"].get("path") or "").startswith("actor::SyncHandle::") and name not in ("into_future", "poll", "clone"):
+                return E.Tok("handle.%s(%s)" % (name, ",".join(it.tokname(a).strip("&*") for a in args[1:])))
+            if name == "new" and "RpcError" in (t["f"].get("path") or "") + (t["f"].get("full") or ""):
+                return E.Tok("rpc-error")
+            if name == "id" and args and it.tokname(args[0]).strip("&*") == "capability":
+                return E.Tok("id-of-capability")
+            if name == "default" and not args:
+                return E.Tok("default-opts")
+            return None
+        if kind == "await" and name.startswith("handle."):
+            m = name[len("handle."):]
+            meth = m.split("(")[0]
+            ok = import_ok if meth == "import_namespace" else (open_ok if meth == "open" else others_ok)
+            log.append((m, "ok" if ok else "err"))
+            if not ok:
+                return E.Err(E.Tok("%s-error" % meth))
+            return E.Ok(E.Tok("id-returned-by-import") if meth == "import_namespace" else E.Tok("%s-result" % meth))
+        return None
+    req = E.struct(f, "api::protocol::ImportRequest", capability=E.Tok("capability"))
+    try:
+        out, hp, ev = E.run_async(f, DOC_IMPORT, [E.href("self"), req], {"self": E.Tok("rpc-actor")}, oracle)
+        r = out
+        if r is not None and r[0] == "adt" and r[1] == E.RESULT and r[2] == 0:
+            resp = r[3][0]
+            return "Ok(doc_id=%s)" % E.describe(E.field(f, resp, "api::protocol::ImportResponse", "doc_id"), f), log
+        return E.describe(out, f), log
+    except E.Unsupported as e:
+        return "UNSUPPORTED-FORM: %s" % e, log
+
+
+def r6(ctx):
+    """the API layer: a capability handed to Docs::import reaches the store actor's import on every successful path (an import
+    skipped because the document happens to be open leaves a read-only document read-only although its secret was supplied)"""
+    f = ctx.facts
+    b = f.body(DOC_IMPORT)
+    ctx.touch(*f.family(b.path))
+    for import_ok in (True, False):
+        for open_ok in (True, False):
+            for others_ok in (True, False):
+                got, log = eval_doc_import(f, import_ok, open_ok, others_ok)
+                imp = [e for e in log if e[0].startswith("import_namespace(")]
+                problems = []
+                if got.startswith("UNSUPPORTED"):
+                    problems.append(got)
+                if got.startswith("Ok("):
+                    if not (imp and imp[0] == ("import_namespace(capability)", "ok")):
+                        problems.append("reports success without having imported the request's capability")
+                    if got != "Ok(doc_id=id-returned-by-import)" and got != "Ok(doc_id=id-of-capability)":
+                        problems.append("answers with a document id that is neither the imported one nor the capability's")
+                    if not open_ok and any(e[0].startswith("open(") for e in log):
+                        problems.append("reports success although opening failed")
+                if not import_ok and imp and got.startswith("Ok("):
+                    problems.append("a failed import is reported as success")
+                if import_ok and open_ok and others_ok and not got.startswith("Ok("):
+                    problems.append("fails although every step succeeded")
+                ctx.check(not problems, "C07.R6", b.path, "api-import[import=%s,open=%s,other-handle-calls=%s]" % tuple("ok" if x else "fail" for x in (import_ok, open_ok, others_ok)),
+                          "returns %s after %s; %s" % (got, log, "; ".join(problems) or "the capability reaches SyncHandle::import_namespace before success is reported"), b.sp)
+    ctx.floor("C07.R6", 8)
+
+
 def run(ctx):
     ctx.run_rule("C07.R1", r1)
     ctx.run_rule("C07.R2", r2)
     ctx.run_rule("C07.R3", r3)
     ctx.run_rule("C07.R4", r4)
     ctx.run_rule("C07.R5", r5)
+    ctx.run_rule("C07.R6", r6)
